@@ -238,6 +238,9 @@ func isFileOptionDisabledForFile(
 		if disableRule.FieldOption() != bufconfig.FieldOptionUnspecified {
 			continue // FieldOption specified, not a matching rule.
 		}
+		if disableRule.FieldName() != "" {
+			continue // A rule scoped to a field says nothing about file options.
+		}
 		if !fileMatchConfig(imageFile, disableRule.Path(), disableRule.FullName()) {
 			continue
 		}
